@@ -5,6 +5,7 @@
 -/
 import RV.Model.ClosedLoop
 import RV.Oracle.Cluster
+import RV.Oracle.RolloutSM
 namespace RV.Oracle.ClosedLoop
 open RV.Arith RV.Traffic RV.RolloutSM RV.ClosedLoop RV.Oracle.Batch
 
@@ -94,6 +95,126 @@ def fwdInv (s : CS) : Bool :=
   (match s.wl with
    | none => false
    | some w => wlOK w && planMono w.replicas (planOf s.ro) && brOKo s.br && phaseInv s w)
+
+/-! ### ghost history of the step gates (C02.ii): never read by a transition -/
+
+/-- what has been *observed* for the step the rollout is on -/
+structure Ghost where
+  /-- the step index the flags speak about -/
+  idx : Int
+  /-- a Rollout reconcile in `BeforeStepUpgrade` / `StepUpgrade` of this step found the BatchRelease reporting the step's pods ready -/
+  upgraded : Bool
+  /-- a Rollout reconcile in `StepTrafficRouting` of this step found the traffic routing done (or the step was a
+      partition-style full-replica step, which documentedly by-passes the routing sub-state) -/
+  routed : Bool
+  /-- in `StepPaused` of this step the pause was found satisfied (duration elapsed / last step at 100 %) or the user approved -/
+  pauseOK : Bool
+  deriving Repr, DecidableEq, Inhabited
+
+def Ghost.fresh (i : Int) : Ghost := { idx := i, upgraded := false, routed := false, pauseOK := false }
+
+/-- the sub-status while the rollout is rolling -/
+def rollingSub (s : CS) : Option Sub :=
+  if !s.gone && s.ro.phase == .progressing && s.ro.reason == .inRolling then s.ro.sub else none
+
+/-- the BatchRelease reports the current step's pods ready, as the reconcile about to run sees it -/
+def obsUpgraded (s : CS) (sub : Sub) : Bool := RV.Oracle.RolloutSM.upgradeDoneObs (roWorld s) sub
+
+/-- the step replaces every pod (partition-style canary): `StepUpgrade` goes straight to `StepMetricsAnalysis` -/
+def bypassW (w : World) (sub : Sub) : Bool :=
+  match w.ro.steps[(sub.curIdx - 1).toNat]?, w.wl with
+  | some st, some wl => decide (scaledV st.replicas wl.replicas true ≥ wl.replicas)
+  | _, _ => false
+
+def bypassStep (s : CS) (sub : Sub) : Bool := bypassW (roWorld s) sub
+
+/-- `DoTrafficRouting` for the current step reports done on the network state the reconcile about to run sees
+    (the release manager first fills an empty pod-template hash from the workload) -/
+def obsRoutedW (w : World) (sub : Sub) : Bool :=
+  match w.wl with
+  | none => false
+  | some wl =>
+    let sub1 := if sub.podHash = "" then { sub with podHash := wl.podTemplateHash } else sub
+    match trCtx w.ro sub1 with
+    | none => false
+    | some t => let o := doTrafficRouting { t with hasRevKey := true } w.net w.mem; o.done && !o.err
+
+def obsRouted (s : CS) (sub : Sub) : Bool := obsRoutedW (roWorld s) sub
+
+/-- the pause of the current step is satisfied as the reconcile about to run sees it -/
+def obsPauseW (w : World) (sub : Sub) : Bool :=
+  match w.ro.steps[(sub.curIdx - 1).toNat]? with
+  | some st => (match doCanaryPaused w.ro sub st with | some (true, _) => true | _ => false)
+  | none => false
+
+def obsPause (s : CS) (sub : Sub) : Bool := obsPauseW (roWorld s) sub
+
+def preUpgrade (st : StepState) : Bool := st == .init || st == .upgrade
+def postRouting (st : StepState) : Bool := st == .metricsAnalysis || st == .paused || st == .ready || st == .completed
+def postPause (st : StepState) : Bool := st == .ready || st == .completed
+
+/-- how a transition `s —l→ s'` updates the ghost -/
+def gstep (g : Ghost) (s : CS) (l : Label) (s' : CS) : Ghost :=
+  match rollingSub s' with
+  | none => g
+  | some sub' =>
+    match rollingSub s with
+    | none => Ghost.fresh sub'.curIdx
+    | some sub =>
+      if sub'.curIdx ≠ sub.curIdx then Ghost.fresh sub'.curIdx
+      else match l with
+        | .ro =>
+          let up := preUpgrade sub.state && obsUpgraded s sub
+          { g with upgraded := g.upgraded || up,
+                   routed := g.routed || (sub.state == .trafficRouting && obsRouted s sub) || (up && bypassStep s sub),
+                   pauseOK := g.pauseOK || (sub.state == .paused && obsPause s sub) }
+        | .approve => { g with pauseOK := g.pauseOK || sub.state == .paused }
+        | _ => g
+
+/-- **C02.ii** — the sub-state implies the observations, and the observations were made in order -/
+def gateInv (g : Ghost) (s : CS) : Bool :=
+  match rollingSub s with
+  | none => true
+  | some sub =>
+    g.idx == sub.curIdx &&
+    (!RV.Oracle.RolloutSM.podsReady sub.state || g.upgraded) &&
+    (!postRouting sub.state || g.routed) &&
+    (!postPause sub.state || g.pauseOK) &&
+    (!g.routed || g.upgraded) && (!g.pauseOK || g.routed)
+
+/-- **C02.ii** — the step index moves on (without a user label) only after all three observations of the step -/
+def advanceOK (g : Ghost) (s : CS) (l : Label) (s' : CS) : Bool :=
+  match rollingSub s, rollingSub s' with
+  | some sub, some sub' =>
+    if sub'.curIdx ≠ sub.curIdx ∧ l = .ro then g.upgraded && g.routed && g.pauseOK && decide (sub'.curIdx = sub.curIdx + 1) else true
+  | _, _ => true
+
+/-- index of the first judged transition of a recorded walk that fails (diagnostics) -/
+def traceFirstBad : Ghost → CS → List (Label × CS × Bool) → Nat → Option (Nat × Ghost × Bool × Bool)
+  | _, _, [], _ => none
+  | g, s, (l, s', judged) :: rest, i =>
+    let g' := gstep g s l s'
+    if judged && !(gateInv g' s' && advanceOK g s l s') then some (i, g', gateInv g' s', advanceOK g s l s')
+    else traceFirstBad g' s' rest (i + 1)
+
+/-- fold the ghost over a recorded walk: every state satisfies `gateInv`, every transition `advanceOK` -/
+def traceOK : Ghost → CS → List (Label × CS × Bool) → Bool
+  | _, _, [] => true
+  | g, s, (l, s', judged) :: rest =>
+    let g' := gstep g s l s'
+    (!judged || (gateInv g' s' && advanceOK g s l s')) && traceOK g' s' rest
+
+/-- the rollout is idle (Healthy, nothing in progress) and the revision differs from the one all pods run -/
+def idle (s : CS) (rev : String) : Bool :=
+  s.ro.phase == .healthy &&
+  (match s.wl with | some w => !w.inProgressAnno && rev != w.currentRevision | none => false)
+
+/-- the labels of the forward-rollout theorems: both reconcilers, workload progress, approval, clock, crash at any
+    time; a new release only while the rollout is idle; no deletion -/
+def legal (s : CS) : Label → Bool
+  | .release rev => idle s rev
+  | .delete => false
+  | _ => true
 
 /-- the CloneSet knobs the rollout world does not carry -/
 def wlx (w : CWl) : RV.Oracle.Cluster.WlX :=
